@@ -21,6 +21,7 @@ CLAUSE = CLAUSE + (" (5) RF-IVL: every subscript of a constant-size array in vps
                    "function's guards (month_days[month - 1] behind the unsigned `month - 1 < 12` test, the BCD and CNI tables).")
 CLAUSE = CLAUSE + (" (6) RF-DOM: the VPS and DVB PDC descriptor decoders refuse on framing bytes only (descriptor_tag, "
                    "descriptor_length), never on the decoded label: every value the encoders accept decodes.")
+CLAUSE = CLAUSE + (" (7) the 0xDC3 exception of vbi_decode_vps_cni is selected by an equality test of the whole received code.")
 NOT_DECIDED = ("BCD/MJD/UTC arithmetic of 8/30 format 1 (numeric), the Hamming 24/18 arithmetic, the TR 101 231 0xDC3 special case (documented exception, its branch "
                "is excluded from the bit-provenance comparison).")
 
@@ -104,6 +105,7 @@ def run(ctx, run):
     sweep.run(ctx, run, [UNIT_VPS, UNIT_830, "src/pdc.c"], {}, 90)
     _bcd_digit_bounds(ctx, run)
     _total_decoders(ctx, run)
+    _dc3_exact(ctx, run)
     neg.helper_contract(ctx, run)
 
 def _neg_selftest(ctx, run):
@@ -238,3 +240,36 @@ def _total_decoders(ctx, run):
             else:
                 run.holds("RF-DOM", key, "the refusal depends only on descriptor_tag / descriptor_length", ex.loc(f, i))
     run.floor("refusing exits of the VPS / DVB PDC decoders", n, 1)
+
+
+def _dc3_exact(ctx, run):
+    """RF-CORR: TR 101 231 lets exactly one VPS code, 0xDC3, stand for two stations (told apart
+    by a distinction bit).  The decoder's replacement of the CNI therefore sits behind an equality
+    test of the *whole* received code with 0xDC3; a masked comparison makes other codes (0xFC3)
+    decode to ARD / ZDF as well - values that were never sent."""
+    P = ctx.prog
+    f = P.need("vbi_decode_vps_cni", "src/vps.c")
+    run.touch(f)
+    n = 0
+    for bid, b in f.blocks.items():
+        t = b.term
+        if not t or "cond" not in t:
+            continue
+        for a in atoms.atoms_of(f, t["cond"], True):
+            consts = [x.const for x in (a.L, a.R) if x is not None and x.const is not None]
+            if 0x0DC3 not in consts:
+                continue
+            n += 1
+            other = a.R if (a.L.const == 0x0DC3) else a.L
+            node = f.exprs[ex.skip(f, other.node)] if other is not None and other.node is not None else None
+            while node is not None and node["k"] == "cast":
+                node = f.exprs[ex.skip(f, node["c"][0])]
+            key = "RF-CORR:vbi_decode_vps_cni:dc3-exact"
+            if a.rel == "==" and node is not None and node["k"] == "ref":
+                run.holds("RF-CORR", key, "the TR 101 231 exception is taken for `%s == 0xDC3` only" % node.get("name"),
+                          "%s:%d" % (f.file, t.get("line", f.line)))
+            else:
+                run.violation("RF-CORR", key, "the test that selects the 0xDC3 exception is `%s`, not an equality of the whole "
+                              "received code with 0xDC3: other codes take the exception too and decode to ARD / ZDF although "
+                              "something else was sent" % repr(a), "%s:%d" % (f.file, t.get("line", f.line)))
+    run.floor("tests against the shared code 0xDC3 in vbi_decode_vps_cni", n, 1)
